@@ -172,22 +172,43 @@ func accessOneR(r *packet.Registers, op string, keep *retainer, idx int) (out st
 		return res("str:"+hx([]byte(v)), err)
 	case "reg":
 		v, err := r.Register(addr)
+		out := res("raw:"+hx(v), err)
 		if err == nil {
-			keep.keep(idx, "raw:"+hx(v), func() string { return "raw:" + hx(v) })
+			// the bytes handed out are the caller's: it writes into them and appends to them
+			for i := range v {
+				v[i] ^= 0xFF
+			}
+			_ = append(v, 0xEE, 0xEE)
+			mine := "raw:" + hx(v)
+			keep.keep(idx, mine, func() string { return "raw:" + hx(v) })
 		}
-		return res("raw:"+hx(v), err)
+		return out
 	case "dreg":
 		v, err := r.DoubleRegister(addr, packet.ByteOrder(x0))
+		out := res("raw:"+hx(v), err)
 		if err == nil {
-			keep.keep(idx, "raw:"+hx(v), func() string { return "raw:" + hx(v) })
+			// the bytes handed out are the caller's: it writes into them and appends to them
+			for i := range v {
+				v[i] ^= 0xFF
+			}
+			_ = append(v, 0xEE, 0xEE)
+			mine := "raw:" + hx(v)
+			keep.keep(idx, mine, func() string { return "raw:" + hx(v) })
 		}
-		return res("raw:"+hx(v), err)
+		return out
 	case "qreg":
 		v, err := r.QuadRegister(addr, packet.ByteOrder(x0))
+		out := res("raw:"+hx(v), err)
 		if err == nil {
-			keep.keep(idx, "raw:"+hx(v), func() string { return "raw:" + hx(v) })
+			// the bytes handed out are the caller's: it writes into them and appends to them
+			for i := range v {
+				v[i] ^= 0xFF
+			}
+			_ = append(v, 0xEE, 0xEE)
+			mine := "raw:" + hx(v)
+			keep.keep(idx, mine, func() string { return "raw:" + hx(v) })
 		}
-		return res("raw:"+hx(v), err)
+		return out
 	}
 	return "NOACC"
 }
